@@ -19,6 +19,11 @@ VALUE_KINDS = ['String', 'Float', 'Int', 'Boolean', 'Tuple', 'Empty', 'Tuple0', 
 EXPECTED_ERR = {'string': 'ExpectedString', 'int': 'ExpectedInt', 'float': 'ExpectedFloat', 'number': 'ExpectedNumber', 'boolean': 'ExpectedBoolean',
                 'tuple': 'ExpectedTuple', 'empty': 'ExpectedEmpty'}
 ACCEPTS = {'string': ['String', 'String0'], 'int': ['Int'], 'float': ['Float'], 'number': ['Int', 'Float'], 'boolean': ['Boolean'], 'tuple': ['Tuple', 'Tuple0'], 'empty': ['Empty']}
+# the untyped evaluator may itself fail with one of the typed "expected ..." errors (a type-safe assignment, a user function that demands a type):
+# a wrapper has to hand these through unchanged like any other error, whatever its own projection is
+ERR_PAYLOADS = {'string': ['Int', 'Boolean'], 'int': ['String', 'Float'], 'float': ['Int', 'String'], 'number': ['String', 'Boolean'], 'boolean': ['Int', 'String'],
+                'tuple': ['Int', 'String'], 'empty': ['Int', 'String']}
+ERR_KINDS = ['ERR'] + ['ERR:%s:%s' % (t, pk) for t in TYPES for pk in ERR_PAYLOADS[t]]
 _C = {}
 
 
@@ -137,7 +142,8 @@ def unit(u, res):
 
     def stub(ex_, st, c, args):
         sel = z3.BitVec('sel', 8)
-        opts = [(sel == i, k) for i, k in enumerate(VALUE_KINDS)] + [(z3.UGE(sel, len(VALUE_KINDS)), 'ERR')]
+        alls = VALUE_KINDS + ERR_KINDS[1:]
+        opts = [(sel == i, k) for i, k in enumerate(alls)] + [(z3.UGE(sel, len(alls)), 'ERR')]
         tag = ex_.branch(st, opts)
         st.log.append((c, args[0], args[1], is_fresh_default_context(ex_, args[1])))
         if c.endswith('_mut'):
@@ -151,6 +157,9 @@ def unit(u, res):
                         break
         if tag == 'ERR':
             r = err(Adt('EvalexprError', C.VI('EvalexprError', 'CustomMessage'), [sstr('stub error')]))
+        elif tag.startswith('ERR:'):
+            _, et, pk = tag.split(':')
+            r = err(Adt('EvalexprError', C.VI('EvalexprError', EXPECTED_ERR[et]), [havoc_value(C, pk)]))
         else:
             r = ok(havoc_value(C, tag))
         st.notes.append((tag, r))
@@ -166,8 +175,28 @@ def unit(u, res):
         st.log.append(('build', args[0], None, False))
         st.notes.append((tag, None))
         return ok(copy_value(built_tree)) if tag == 'BUILT' else err(copy_value(build_err))
+    marker_tokens = VecV([C.token('Identifier', sstr('marker'))])
+
+    def tokenize_stub(ex_, st, c, args):
+        # precompilation spelled out (tokenize, then tokens_to_operator_tree) is the same havoc: either half may fail, the pair counts as one build
+        tag = ex_.branch(st, [(z3.Bool('tok_ok'), 'OK'), (z3.Not(z3.Bool('tok_ok')), 'ERR')])
+        if tag == 'ERR':
+            st.log.append(('build', args[0], None, False))
+            st.notes.append(('BUILDERR', None))
+            return err(copy_value(build_err))
+        st.notes.append(('TOKENIZED', args[0]))
+        return ok(copy_value(marker_tokens))
+
+    def tree_stub(ex_, st, c, args):
+        src = [n[1] for n in st.notes if n[0] == 'TOKENIZED']
+        tag = ex_.branch(st, [(z3.Bool('build_ok'), 'BUILT'), (z3.Not(z3.Bool('build_ok')), 'BUILDERR')])
+        st.log.append(('build', src[-1] if src and identical(ex_.deref_all(args[0]), marker_tokens) else None, None, False))
+        st.notes.append((tag, None))
+        return ok(copy_value(built_tree)) if tag == 'BUILT' else err(copy_value(build_err))
     if level == 'string':
         ex.overrides.append((re.compile(r'(interface::)?build_operator_tree'), build_stub))
+        ex.overrides.append((re.compile(r'(token::)?tokenize'), tokenize_stub))
+        ex.overrides.append((re.compile(r'(tree::)?tokens_to_operator_tree'), tree_stub))
     subject = sstr('<any expression>') if level == 'string' else C.node(C.operator('RootNode'), [C.node(C.operator('Const', C.v_int(5)))])
     pre_pc = []
     if symbolic_subject and level == 'string':
@@ -198,7 +227,7 @@ def unit(u, res):
         claim = z3.BoolVal(True)
         evlog = [e for e in o.log if e[0] != 'build']
         blog = [e for e in o.log if e[0] == 'build']
-        evnotes = [n for n in o.state.notes if n[0] not in ('BUILT', 'BUILDERR')]
+        evnotes = [n for n in o.state.notes if n[0] not in ('BUILT', 'BUILDERR', 'TOKENIZED')]
         bnotes = [n for n in o.state.notes if n[0] in ('BUILT', 'BUILDERR')]
         via_build = bool(blog)
         want_stub = stub_name if not via_build else 'Node::' + stub_name
@@ -232,7 +261,7 @@ def unit(u, res):
                 why = 'evaluator called with a different context'
             else:
                 tag, r = evnotes[0]
-                want = r if tag == 'ERR' else project(C, typ, tag, r.fields[0])
+                want = r if tag.startswith('ERR') else project(C, typ, tag, r.fields[0])
                 claim = equal_term(o.value, want)
                 # state that outlives the call (thread-locals): inductive invariant "holds a fresh default context" — assumed at entry (lazy
                 # initialisation), must hold again at exit, otherwise the next call does not evaluate in a fresh context
@@ -251,7 +280,7 @@ def unit(u, res):
         for mdl in ([model] + list(pr.extra_models)) if verdict == 'sat' else []:
             tag = evnotes[0][0] if evnotes else '?'
             stub_val = None
-            if evnotes and tag != 'ERR':
+            if evnotes and not tag.startswith('ERR'):
                 try:
                     stub_val = render_value(C.meta, evnotes[0][1].fields[0], mdl)
                 except Exception:
@@ -371,6 +400,9 @@ REALISE = {'Int': ('7', ('Int', 7)), 'Float': ('2.5', ('Float', 0x40040000000000
            '?': ('x = 1; x', ('Int', 1))}
 
 
+ERR_LIT = {'Int': '7', 'String': '"ab"', 'Boolean': 'true', 'Float': '2.5'}
+
+
 def replay_ce(ce):
     """compare the entry point natively with the projection of the untyped evaluator on a realising expression; also on a program with
     an assignment (the context-free and _mut forms must evaluate it; the immutable forms must fail with ContextNotMutable)"""
@@ -382,8 +414,9 @@ def replay_ce(ce):
     exprs = [REALISE.get(ce['stub_outcome'], REALISE['?'])[0]] + literal_for(ce.get('stub_value')) + ['a = 1; a + 1', 'n = 0; n += 1; n', '(3, 4)', '1 +', 'k += 1; k', 'f(1)', 'k = k * 2; f(k)', 'f(2.5)',
              'k += 1; "s"', 'k += 1; true', 'k += 1; (k, k)', 'k += 1;', '"x" = 5; x + 1', '("y") = 2; y * 2', '5 = 3', '"k" += 1; k', '1; "z" = 1.5; z',
              # texts that std parsers accept but the expression language treats differently
+             'fl = 2', 'k = 2.5', 'k = "s"; 1.5', 'fl += 1; fl = true'] + ['g_%s(%s)' % (t, ERR_LIT[pk]) for t in TYPES for pk in ERR_PAYLOADS[t]] + [
              '+7', '-9223372036854775808', ' 7 ', '007', '1e3', '.5', '5.', 'inf', 'NaN', 'TRUE', 'True', '0x10', '1_000', '+1.5', 't', '']
-    cx = dict(vars=[('k', ('Int', 1)), ('et', ('Tuple', []))], funcs=[('f', 'log')])
+    cx = dict(vars=[('k', ('Int', 1)), ('et', ('Tuple', [])), ('fl', ('Float', 0x3ff8000000000000))], funcs=[('f', 'log')] + [('g_%s' % t, 'expect:%s' % t) for t in TYPES])
     for prof in ('dev', 'release'):
         for expr in exprs:
             # reference: the untyped evaluator with an explicit context; for the context-free forms an explicitly created empty HashMapContext
